@@ -3,7 +3,8 @@ from __future__ import annotations
 
 from typing import Dict
 
-from .. import core, impl, mgrcorr, mgrprop
+from .. import core, gen, hx, impl, mgrcorr, mgrprop
+from .. import indicators as X
 from .C03 import expected
 
 
@@ -53,6 +54,24 @@ def falsify(ctx, cfg, rows, init, ops, meta) -> bool:
             b = [(s["ts"], s["ohlcv"], s["clean"], bool(s["tag"])) for s in bstates[-1]]
             if a != b:
                 bad = {"relation": "schedule-dependent", "ha": bool(cfg.get("ha"))}
+    if bad is None and len(rows) % 3 == 0:
+        # the same stream through a Hexital without a timeframe of its own whose member asks for this
+        # one: the Hexital's timeframe_fill flag governs the member's manager, which must hold the
+        # same contiguous series
+        try:
+            with core.time_limit(30):
+                spec = {"kind": "SMA", "kw": {"period": 3, "input_value": "close"}, "round_value": 4}
+                h = hx.hexital([{**r, "inds": {}} for r in init], [hx.member(spec, cfg["tf"])],
+                               {"fill": True, "ha": cfg.get("ha")})
+                for op in ops:
+                    if op[0] == "append":
+                        h.append(X.mk_rows([{**r, "inds": {}} for r in op[1]]))
+                (name, cs), = [(k, v) for k, v in h.get_candles().items() if k != "default"]
+                got = [(gen.to_ts(c.timestamp), impl.snap_ohlcv(c)) for c in cs]
+                if got != [(s["ts"], tuple(s["ohlcv"])) for s in states[-1]]:
+                    bad = {"relation": "hexital-member-timeframe-differs-from-manager", "ha": bool(cfg.get("ha"))}
+        except Exception as e:  # noqa
+            bad = {"relation": "hexital-exception", "exc": type(e).__name__}
     if bad:
         sig = {"kind": "fill", **bad}
         ctx.fail(sig, f"gap filling: {bad} tf={cfg['tf']} ha={cfg.get('ha')} n={len(rows)} init={len(init)}",
